@@ -205,6 +205,7 @@ class Walker(object):
     ):
         # type: (...) -> Iterator[Tuple[Text, Optional[Info]]]
         """Get the walk generator."""
+        path = abspath(normpath(path))
         if self.search == "breadth":
             return self._walk_breadth(fs, path, namespaces=namespaces)
         else:
